@@ -61,7 +61,8 @@ func VerifScan(w io.Writer, text string, n int) {
 			return
 		}
 	}
-	for k := 0; k < 1000000; k++ {
+	// a lexer can never yield more tokens than the text has bytes: anything beyond is a runaway loop
+	for k := 0; k < 2*len(text)+16; k++ {
 		tok, err := l.NextToken()
 		if err != nil {
 			if errors.Is(err, io.EOF) {
@@ -294,6 +295,12 @@ type job struct {
 func main() {
 	r := ev.Start("C19", "model_checking")
 	sets := defs.Sets()
+	if !r.Quick() {
+		more := defs.MoreSets()
+		for i := 0; i < len(more); i += 5 {
+			sets = append(sets, more[i])
+		}
+	}
 	var progs []*prog
 	var eprogs []*emitted.Program
 	for i, ds := range sets {
@@ -403,7 +410,7 @@ func main() {
 		// (each discarded blank costs the emitted reader two 32 KiB allocations, so the sweep is kept narrow:
 		// quick: 3 programs, paddings within 40 of both boundaries; thorough: all programs, every 16th padding too)
 		seqs := sweepTexts(p)
-		if r.Quick() && pi%3 != 0 {
+		if (r.Quick() && pi%3 != 0) || pi >= len(defs.Sets()) {
 			seqs = nil
 		}
 		for si, s := range seqs {
@@ -424,6 +431,63 @@ func main() {
 			}
 		}
 	}
+	// a multi-byte character as look-ahead (retracted rune) or as token start at every offset around the boundaries:
+	// with the real half size (4096, wrap at 8192) and with tiny halves (wrap at 2n)
+	for pi, p := range progs {
+		if !p.OK() || (r.Quick() && pi%2 != 0) {
+			continue
+		}
+		word := ""
+		for _, w := range []string{"ab", "if", "le", "42", "=", "+", "x1"} {
+			if res := p.tokenize(w); res.errLine == 0 && len(res.toks) == 1 {
+				word = w
+				break
+			}
+		}
+		if word == "" {
+			continue
+		}
+		for _, mb := range []string{"é", "≤", "😀"} {
+			for _, boundary := range []int{4096, 8192, 12288} {
+				for d := -6; d <= 2; d++ {
+					pad := boundary + d - len(word)
+					if pad < 0 {
+						continue
+					}
+					jobs = append(jobs, job{p, 0, strings.Repeat(" ", pad) + word + mb + word})
+					jobs = append(jobs, job{p, 0, strings.Repeat("\n", pad) + word + mb + " " + word + "\n"})
+				}
+			}
+			for _, half := range []int{4, 5, 8} {
+				if len(word)+len(mb) > half-1 {
+					continue
+				}
+				for pad := 0; pad <= 4*half+2; pad++ {
+					for _, text := range []string{strings.Repeat(" ", pad) + word + mb + word, strings.Repeat(" ", pad) + word + " " + mb + mb + word} {
+						// only texts whose longest run plus look-ahead fits in one half
+						if res := p.tokenize(text); res.maxRun <= half-1 {
+							jobs = append(jobs, job{p, half, text})
+						}
+					}
+				}
+			}
+		}
+	}
+	// the property covers tokens that fit in one buffer half: drop every text whose longest run (token, skipped
+	// token or discarded blank) plus its look-ahead does not (e.g. a whitespace token spanning the whole padding)
+	kept := jobs[:0]
+	for _, j := range jobs {
+		half := j.n
+		if half == 0 {
+			half = 4096
+		}
+		if res := j.p.tokenize(j.text); res.maxRun > half-1 {
+			r.Add("texts_with_a_run_longer_than_a_half_dropped", 1)
+			continue
+		}
+		kept = append(kept, j)
+	}
+	jobs = kept
 	r.Set("executions_planned", len(jobs))
 	// run in chunks, 16 driver processes at a time
 	const chunk = 4000
